@@ -151,7 +151,8 @@ def with_defines(rng, lines):
     i = rng.choice(idx)
     name = rng.choice(["d1", "Dx"])
     ind, body = split_indent(str(lines[i]))
-    lines[i] = Line(ind + body.rsplit(" ", 1)[0] + " $" + name, **lines[i].info)
+    ref = "$" + name if rng.random() < 0.5 else "${" + name + "}"     # both spellings of a reference
+    lines[i] = Line(ind + body.rsplit(" ", 1)[0] + " " + ref, **lines[i].info)
     pos = rng.randint(0, i)
     lines.insert(pos, Line("%define " + name + " v1", role="define", cont=c08.container_at(lines, pos)))
     if rng.random() < 0.4:
